@@ -121,6 +121,12 @@ Alphabet ==
          \cup {E("ReadStream", [name |-> n]) : n \in StreamNames}
          \cup {Cre(T, TabT), Ins(T, <<<<IntV(1), sa>>>>), E("RemoveSignature", [x |-> 0]), E("AddSignature", [x |-> 0]),
                E("Flush", [x |-> 0]), E("IntoInner", [x |-> 0]), E("Reopen", [x |-> 0])}
+    [] Cfg = "limits" ->        \* C20, scaled: 2 columns, 3 rows, a pool that fills up; not replayed (scaled constants)
+         {Cre(T, TabT), Cre(U, <<ColK, ColV, ColW>>), Drp(T)}
+         \cup {Ins(T, <<<<IntV(k), v>>>>) : k \in 1..4, v \in {sa, sb, StrV(<<99>>), StrV(<<100>>)}}
+         \cup {Ins(T, <<<<IntV(1), sa>>, <<IntV(2), sb>>, <<IntV(3), sT>>, <<IntV(4), sa>>>>), Ins(T, <<<<IntV(5), sa>>, <<IntV(6), sb>>>>)}
+         \cup {Upd(T, <<<<V, StrV(<<101>>)>>>>, Eq(K, IntV(1))), Del(T, Eq(K, IntV(1))), Del(T, True)}
+         \cup {E("Flush", [x |-> 0]), E("IntoInner", [x |-> 0]), E("Reopen", [x |-> 0])}
     [] Cfg = "reject" ->        \* every kind of invalid call (C04) in every state of a small model
          {Cre(T, TabT), Drp(T), Ins(T, <<<<IntV(1), sa>>>>), Ins(T, <<<<IntV(7), sT>>>>), Del(T, True),
           Upd(T, <<<<V, sb>>, <<K, IntV(5)>>>>, True),     \* refused when it would make two keys equal, after touching strings
